@@ -640,6 +640,10 @@ fn expand_brace_range(tokens: &mut types::Tokens) {
 
         // safe to unwrap here, since the `is_match` above already validated
         let caps = re.captures(token).unwrap();
+        // the text around the braces is kept: `f{1..2}.txt` -> `f1.txt f2.txt`
+        let m = caps.get(0).unwrap();
+        let head = &token[..m.start()];
+        let tail = &token[m.end()..];
 
         let start = match caps[1].to_string().parse::<i32>() {
             Ok(x) => x,
@@ -677,12 +681,12 @@ fn expand_brace_range(tokens: &mut types::Tokens) {
         let mut n = start;
         if start > end {
             while n >= end {
-                result.push(format!("{}", n));
+                result.push(format!("{}{}{}", head, n, tail));
                 n -= incr;
             }
         } else {
             while n <= end {
-                result.push(format!("{}", n));
+                result.push(format!("{}{}{}", head, n, tail));
                 n += incr;
             }
         }
